@@ -3,6 +3,7 @@ import Casket.Model.Mitm
 import Casket.Model.Link
 import Casket.Model.FCGI
 import Casket.Spec.PeerBytes
+import Casket.Spec.Hello
 import Driver.Proto
 import Driver.C20
 import Casket.Model.Limits
@@ -43,6 +44,31 @@ def observed (out : String) : R String :=
 
 def judgeTotal (_ : List String) (out : String) : String := totalVerdict (observed out)
 
+/-- the canonical rendering read back -/
+def parseInfo (s : String) : Option Info :=
+  match s.splitOn ";" with
+  | [v, cs, cm, ex, cu, pt] =>
+    let fld (pre : String) (x : String) : Option String :=
+      if x.startsWith pre then some (x.drop pre.length).toString else none
+    do
+      let v ← (← fld "v=" v).toNat?
+      let cs ← Driver.natList (← fld "cs=" cs)
+      let cm ← Driver.unhex (← fld "cm=" cm)
+      let ex ← Driver.natList (← fld "ex=" ex)
+      let cu ← Driver.natList (← fld "cu=" cu)
+      let pt ← Driver.unhex (← fld "pt=" pt)
+      pure { version := v, ciphers := cs, compression := cm, extensions := ex, curves := cu, points := pt }
+  | _ => none
+
+/-- no panic, and for a well-formed ClientHello exactly its reference reading -/
+def helloJudge (f : List String) (out : String) : String :=
+  if out.startsWith "PANIC" then totalVerdict (observed out) else
+  match f with
+  | [h] => match Driver.unhex h with
+    | some bs => Casket.HelloSpec.skewVerdict bs (parseInfo out)
+    | none => "bad:unparsable:case"
+  | _ => "bad:unparsable:case"
+
 def helloModel : List String → String
   | [h] => match Driver.unhex h with
     | some bs => match parseRawClientHello bs with
@@ -82,9 +108,16 @@ def segModel : List String → String
     | _, _ => "bad-case"
   | _ => "bad-case"
 
-def segJudge (_ : List String) (out : String) : String :=
+def segJudge (f : List String) (out : String) : String :=
   match out.splitOn "\t" with
-  | [a, b] => segVerdict (observed a) (observed b)
+  | [a, b] =>
+    let v := segVerdict (observed a) (observed b)
+    if v != "ok" then v else
+    match f with
+    | stream :: _ => match Driver.unhex stream with
+      | some bs => Casket.HelloSpec.recordedVerdict bs (if b == "-" then none else parseInfo b)
+      | none => "bad:unparsable:case"
+    | _ => "bad:unparsable:case"
   | _ => totalVerdict (observed out)
 
 def showVerdict : R Verdict → String
@@ -184,7 +217,7 @@ def matchesModel : List String → String
   | _ => "bad-case"
 
 def streams : List Driver.Stream := [
-  { name := "c19.hello", model := helloModel, judge := judgeTotal },
+  { name := "c19.hello", model := helloModel, judge := helloJudge },
   { name := "c19.looks", model := looksModel, judge := looksJudge },
   { name := "c19.seg", model := segModel, judge := segJudge },
   { name := "c19.mitm", model := mitmModel, judge := judgeTotal },
